@@ -13,7 +13,7 @@ prop("C01", "Assignment fidelity: the destination receives exactly the source va
     ("uint_to_uint", "assign_uint_uint", "unsigned values into unsigned fields"),
     ("absent_source_is_noop_or_zero", "assign_absent", "an absent source (nil, the null node, a null in the document) leaves the field alone or zeroes it: never a value from elsewhere"),
     ("vector_to_field_rule", "vector_to_field_rule", "RULE LEVEL, end to end: after a rule `obj.F = jso.path` (F a field of the destination struct of any type, path leading to a present value, no modifiers) the field holds exactly the cascade's conversion of that value -- characterised by the theorems below --, no other object and no variable changes, and the rule succeeds"),
-    ("literal_or_path_to_field_rule", "rule_step", "the same for both shapes of plain rule, `obj.F = \"literal\"` and `obj.F = jso.path`: the rule succeeds, the field holds the cascade's conversion of the value, the object is otherwise as before, no variable, counter or call log changes"),
+    ("literal_or_path_to_field_rule", "rule_step", "the same for every shape of plain rule -- `obj.F = \"literal\"`, `obj.F = jso.path`, `obj.F = <static variable>`, `obj.F = other.Field`: the rule succeeds, the field holds the cascade's conversion of the value, the object is otherwise as before, no variable, counter or call log changes"),
     ("example_text_to_field", "e_assign_rule", "not vacuous: the text `obj.Status = jso.n`, parsed by the parser model, run on a context with a document and a destination bound, meets the theorem's hypotheses and leaves Status = 42"),
     ("plain_rule_is_lookup_then_write", "follow_plain_assign", "a rule `dst = src` without modifiers is Ctx.get of the source followed by Ctx.set of the destination"),
     ("static_rule_is_set_of_literal", "follow_static_assign", "a rule `dst = literal` is Ctx.set of the literal's text, wherever the rule stands"),
@@ -22,11 +22,12 @@ prop("C01", "Assignment fidelity: the destination receives exactly the source va
 ])
 
 prop("C02", "Non-interference: a rule changes only its own destination", [
-    ("independent_rules_any_order", "independent_rules_any_order", "FULL STATEMENT, second sentence: a block of rules `obj.Fi = <literal or document path>` with pairwise distinct destination fields succeeds in every ordering; every ordering leaves the same objects, variables, counters and call log; in that state each destination field holds exactly what its rule alone writes, every other field of the object and every other object is as before (any user functions, any fuel, any number of rules)"),
+    ("independent_rules_any_order", "independent_rules_any_order", "FULL STATEMENT, second sentence: a block of rules `obj.Fi = <source>` -- the source a literal, a document path, a static or context variable holding a Go value, or a field of an object other than the destination -- with pairwise distinct destination fields succeeds in every ordering; every ordering leaves the same objects, variables, counters and call log; in that state each destination field holds exactly what its rule alone writes, every other field of the object and every other object is as before (any user functions, any fuel, any number of rules)"),
     ("context_variables_frame", "decode_binds_only_its_names", "context variables, program level: a decode changes the binding of no name other than those its rules bind (any program, any fuel)"),
     ("independent_block", "independent_block", "the induction behind it: the block leaves the destination object equal to the rules' writes applied one after another and touches nothing else"),
     ("writes_commute", "fold_upd_perm", "a sequence of writes to distinct fields gives the same object in every order (induction over permutations)"),
     ("example_two_rules", "e_block_is_independent", "not vacuous: the parsed program `obj.Id = \"lit\"; obj.Status = jso.n` meets the premises"),
+    ("example_three_rules_other_sources", "e_block3_is_independent", "not vacuous for the other source kinds: `obj.Id = ivar; obj.Status = st.Status; obj.Name = \"lit\"` meets the premises, and the reversed program decodes to the same store"),
     ("example_both_orders", "e_both_orders", "and both orders decode to the same object"),
     ("destination_write_frame", "dst_write_frame", "RULE LEVEL: Ctx.set on a destination that is not a context variable changes no variable, counter or log, and no object other than the one the destination's root variable points to"),
     ("field_write_frame", "setwb_frame", "writing a field leaves all variables, counters, trace, break depth, error channel and every other object untouched"),
